@@ -126,6 +126,9 @@ def extentRects (o : Obj) : List Box :=
 def rectangularShapes : List String :=
   ["", "rectangle", "square", "text", "code", "class", "sql_table", "image", "sequence_diagram", "hierarchy"]
 
+/-- half length of the harness' outline probes (lay.nearPerimeter) -/
+def probeReach : Rat := 2
+
 /-- the extent rectangles other than the shape's own box (labels, icons, and their decorated copies) -/
 def attachmentRects (o : Obj) : List Box := (extentRects o).filter (· != o.box)
 
@@ -136,7 +139,9 @@ def endsOnExtent (tol : Rat) (o : Obj) (perim : String) (p : Pt) : Bool :=
   if rectangularShapes.contains o.shape || perim == "rect" then
     (extentRects o).any fun r => decide (r.onBorder tol p)
   else
-    ((extentRects o).any fun r => decide (r.containsTol tol p)) &&
+    -- the outline probe has a reach of 2 px: the accompanying "inside the extent" test uses the same reach, so that
+    -- an end the probe places on the outline is not rejected for being 1.3 px outside a fractional bounding box
+    ((extentRects o).any fun r => decide (r.containsTol (max tol probeReach) p)) &&
       (perim == "yes" || (attachmentRects o).any fun r => decide (r.onBorder tol p))
 
 /-- distance of `p` from the border of `b`: outside the box the larger of the two axis distances, inside it the
